@@ -452,15 +452,41 @@ def _explicit(repo, col):
     col.check(ok, R, fi, "explicit vector field: (v_neighbour - v_self) * g into the row of self",
               "row i receives g_up*(v[i+1]-v[i]) and g_low*(v[i-1]-v[i])",
               f"axial terms are {srcs}", node=fi.node)
-    # uppers/lowers selection: src>snk feeds uppers
-    sels = {}
-    for n in walk_no_nested(fi.node):
-        if isinstance(n, ast.Assign) and isinstance(n.targets[0], ast.Name) and n.targets[0].id in ("upper_inds", "lower_inds"):
-            sels[n.targets[0].id] = unparse(n.value)
-    ok = sels.get("upper_inds", "").replace(" ", "") == "sources[c2c]>sinks[c2c]" and \
-        sels.get("lower_inds", "").replace(" ", "") == "sources[c2c]<sinks[c2c]"
-    col.check(ok, R, fi, "explicit: source > sink feeds uppers, source < sink feeds lowers", str(sels),
-              f"selectors are {sels}", node=fi.node)
+    # uppers/lowers selection, on the normal form of the returned value (helpers inlined, conditionals lifted): the
+    # rows [:, :-1] (compartment i, neighbour i+1) receive the conductances of the edges with source > sink, the rows
+    # [:, 1:] those with source < sink
+    nt = idxm.norm(repo, fi, ex.returns[-1])
+    while nt.op == "ifexp":
+        nt = nt.args[1]
+    found = {}
+    cur = nt
+    while cur.op == "mcall" and cur.name in ("add", "set") and cur.args[0].op == "sub" and cur.args[0].args[0].op == "attr" \
+            and cur.args[0].args[0].name == "at":
+        sl = cur.args[0].args[1]
+        rows = None
+        if sl.op == "tuple" and len(sl.args) == 2 and sl.args[1].op == "slice":
+            lo, hi, _st = sl.args[1].args
+            if hi.op == "unary" and hi.name == "USub" and hi.args[0].op == "const" and hi.args[0].name == 1 and lo.op == "const" and lo.name is None:
+                rows = "self=i,neighbour=i+1"
+            elif lo.op == "const" and lo.name == 1 and hi.op == "const" and hi.name is None:
+                rows = "self=i,neighbour=i-1"
+        sel = None
+        for x in cur.args[1].walk():
+            if x.op == "cmp" and x.name in (">", "<") and len(x.args) == 2:
+                l = T.find(x.args[0], lambda y: y.op == "param" and y.name in ("sources", "sinks"))
+                r_ = T.find(x.args[1], lambda y: y.op == "param" and y.name in ("sources", "sinks"))
+                if l is not None and r_ is not None and l.name != r_.name:
+                    src_gt = (x.name == ">") == (l.name == "sources")
+                    sel = "src>snk" if src_gt else "src<snk"
+        found[rows] = sel
+        cur = cur.args[0].args[0].args[0]
+    want_sel = {"self=i,neighbour=i+1": "src>snk", "self=i,neighbour=i-1": "src<snk"}
+    if set(found) != set(want_sel) or None in found.values():
+        col.unk(R, fi, "explicit: edge selection of the two axial contributions", f"could not identify rows/selectors: {found}", node=fi.node)
+    else:
+        col.check(found == want_sel, R, fi, "explicit: source > sink feeds the rows whose neighbour is i+1, source < sink those whose neighbour is i-1",
+                  str(found), f"edge selection is {found}: each compartment uses the coupling conductance computed for its other neighbour "
+                              f"(wrong whenever neighbouring compartments differ in radius, length or resistivity)", node=fi.node)
     # step_voltage_explicit: v + dt*update
     se = repo.func(SV, "step_voltage_explicit")
     exs = idxm.expander(repo, se)
@@ -805,29 +831,9 @@ def _scheme(repo, col):
 
     col.check("voltages" in kw and is_param_sub(kw["voltages"], "u", "v"), R, fi, "voltages = u['v'] before the step",
               "old voltages", f"voltages is {kw.get('voltages').short() if 'voltages' in kw else None}", node=d)
-    # voltage_terms = (v_terms + syn_v_terms) / cm ; constant_terms = (const + i_ext + syn_const) / cm
-    def summands(t):
-        if t.op == "binop" and t.name == "+":
-            return summands(t.args[0]) + summands(t.args[1])
-        return [t]
-
-    def src(t):
-        """classify a summand: ('chan', k) / ('syn', k) / 'i_ext'"""
-        c = T.find(t, lambda x: x.op == "mcall" and x.name in ("_step_channels", "_step_synapse"))
-        if t.op == "item" and t.args[0].op == "item" and c is not None:
-            return ("chan" if c.name == "_step_channels" else "syn", t.args[0].name, t.name)
-        if T.find(t, lambda x: x.op == "mcall" and x.name == "_get_external_input") is not None:
-            return "i_ext"
-        return None
-
-    for key, want in (("voltage_terms", {("chan", 1, 0), ("syn", 1, 0)}), ("constant_terms", {("chan", 1, 1), ("syn", 1, 1), "i_ext"})):
-        t = kw.get(key)
-        ok = t is not None and t.op == "binop" and t.name == "/" and is_param_sub(t.args[1], "params", "capacitance")
-        got = {src(s) for s in summands(t.args[0])} if ok else set()
-        col.check(ok and got == want, R, fi, f"{key} = (channel + synapse{' + stimulus' if 'i_ext' in want else ''} terms) / capacitance",
-                  f"{sorted(map(str, got))}",
-                  f"{key} is {t.short(160) if t is not None else None}: required summands {sorted(map(str, want))} divided by params['capacitance']",
-                  node=d)
+    # voltage_terms = (v_terms + syn_v_terms) / cm ; constant_terms = (const + i_ext + syn_const) / cm, decided on the
+    # algebraic form (sum order, one division or one per summand, a hoisted 1/cm ... are all the same form)
+    current_terms(repo, col, R, fi, ex, kw, d)
     col.check("axial_conductances" in kw and is_param_sub(kw["axial_conductances"], "params", "axial_conductances"), R, fi,
               "axial_conductances = params['axial_conductances']", "", "axial conductances are not taken from params", node=d)
     # solver-specific kwargs and binding through **
@@ -938,6 +944,48 @@ def _scheme(repo, col):
     last = node
     col.check(any(isinstance(x, ast.Raise) for x in last.orelse), R, fi, "unknown solver raises", "ValueError",
               "an unknown solver name does not raise", node=last)
+
+
+def current_terms(repo, col, R, fi, ex, kw, node):
+    from sa.termalg import term_rat, coefficient
+    from sa.algebra import Rat
+
+    def leaf(x):
+        if x.op == "ifexp" and T.find(x.args[1], lambda y: y.op == "mcall" and y.name == "_get_external_input") is not None:
+            return term_rat(x.args[1], leaf)
+        if x.op == "mcall" and x.name == "_get_external_input":
+            return Rat.atom("i_ext")
+        if x.op == "item" and x.args[0].op == "item":
+            c = x.args[0].args[0]
+            if c.op == "mcall" and c.name in ("_step_channels", "_step_synapse"):
+                return Rat.atom(f"{'chan' if c.name == '_step_channels' else 'syn'}_{x.args[0].name}_{x.name}")
+        if x.op == "sub" and x.args[0].op == "param" and x.args[0].name == "params" and x.args[1].op == "const":
+            return Rat.atom("p_" + str(x.args[1].name))
+        return None
+
+    inv_cm = Rat.const(1) / Rat.atom("p_capacitance")
+    for key, want in (("voltage_terms", {"chan_1_0", "syn_1_0"}), ("constant_terms", {"chan_1_1", "syn_1_1", "i_ext"})):
+        t = kw.get(key)
+        if t is None:
+            col.bad(R, fi, f"{key} is handed to the voltage solver", f"`{key}` is missing from the solver arguments", node=node)
+            continue
+        try:
+            form = term_rat(t, leaf)
+        except Und as e:
+            col.unk(R, fi, key, f"outside the analysable fragment: {e}", node=node)
+            continue
+        atoms = {a for a in form.atoms() if a != "p_capacitance"}
+        bad = []
+        for a in sorted(want | atoms):
+            co = coefficient(form, a) if a in atoms else None
+            if a not in want:
+                bad.append(f"unexpected term {a[:60]}")
+            elif co is None or not co.eq(inv_cm):
+                bad.append(f"coefficient of {a} is {co} (expected 1/capacitance)")
+        col.check(not bad, R, fi, f"{key} = (channel + synapse{' + stimulus' if 'i_ext' in want else ''} terms) / capacitance",
+                  f"every one of {sorted(want)} has coefficient 1/params['capacitance']",
+                  f"{key} is {t.short(140)}: " + "; ".join(bad) + " -- (uA/cm^2)/(uF/cm^2) = mV/ms requires every current term "
+                  f"divided by the capacitance, nothing else", node=node)
 
 
 def _linform(t: T, h: T):
